@@ -14,7 +14,9 @@
 
 #include "../engine/vf.hpp"
 #include "../ref/refshim.hpp"
+#include <bxdecay0/i_random.h>
 #include "refdict.inc"
+#include "reflow.inc"
 #include "catalog.hpp"
 namespace catalog {
 inline int dbd_max_level(const std::string & n) { auto it = REF_DBD.find(n); return it == REF_DBD.end() ? 0 : (int)it->second.levelE.size() - 1; }
@@ -139,6 +141,9 @@ struct Config
   int level = 0, mode = 0;
   bool has_window = false; double ebb1 = 0, ebb2 = 4.3;
   double nme[7] = {1, 1, 1, 1, 1, 1, 1};
+  // prelude (port side only): one event of ANOTHER background nuclide generated immediately before the event under comparison, so that state
+  // shared between nuclides through the common helpers (a cached spectrum maximum, a static work array) meets the reference, which is pure
+  std::string pre_name; uint64_t pre_seed = 0;
   std::string key() const
   {
     char b[200]; snprintf(b, sizeof b, "%s:%s:%d:%d:%d:%.6g:%.6g", kind.c_str(), name.c_str(), level, mode, (int)has_window, ebb1, ebb2);
@@ -148,13 +153,16 @@ struct Config
   {
     std::string o = "{\"kind\":" + jstr(kind) + ",\"name\":" + jstr(name) + ",\"refname\":" + jstr(refname) + ",\"level\":" + std::to_string(level) + ",\"mode\":" + std::to_string(mode) + ",\"has_window\":" + (has_window ? "true" : "false") + ",\"ebb1\":" + jstr(hexd(ebb1)) + ",\"ebb2\":" + jstr(hexd(ebb2)) + ",\"nme\":[";
     for (int i = 0; i < 7; i++) o += (i ? "," : "") + jstr(hexd(nme[i]));
-    return o + "]}";
+    o += "]";
+    if (!pre_name.empty()) o += ",\"pre_name\":" + jstr(pre_name) + ",\"pre_seed\":" + jstr(std::to_string(pre_seed));
+    return o + "}";
   }
   static Config from(const JV & j)
   {
     Config c; c.kind = j.s("kind"); c.name = j.s("name"); c.refname = j.s("refname"); c.level = (int)j.n("level", 0); c.mode = (int)j.n("mode", 0);
     c.has_window = j.has("has_window") && j.at("has_window").b; c.ebb1 = strtod(j.s("ebb1", "0").c_str(), nullptr); c.ebb2 = strtod(j.s("ebb2", "4.3").c_str(), nullptr);
     if (j.has("nme")) { auto v = jtape_read(j.at("nme")); for (int i = 0; i < 7 && i < (int)v.size(); i++) c.nme[i] = v[i]; }
+    c.pre_name = j.s("pre_name", ""); c.pre_seed = strtoull(j.s("pre_seed", "0").c_str(), nullptr, 10);
     return c;
   }
 };
@@ -164,6 +172,7 @@ static std::vector<double> dict_for(const Config & c)
   std::set<double> s; std::set<std::string> seen; std::vector<std::string> todo;
   auto it = REF_DISPATCH.find(c.kind + ":" + c.refname);
   if (it != REF_DISPATCH.end()) todo = it->second;
+  if (c.kind == "low") todo = {c.refname};
   while (!todo.empty()) {
     std::string n = todo.back(); todo.pop_back();
     if (!seen.insert(n).second) continue;
@@ -205,12 +214,18 @@ struct DbdState // port side state for a dbd config
   bxdecay0::bbpars pars; int ier = 0;
 };
 
+static void port_prelude(const Config & c);
 static void port_event(const Config & c, DbdState * st, TapeRandom & r, Sides & s)
 {
   bxdecay0::event ev;
+  if (!c.pre_name.empty()) port_prelude(c);
   try {
     int ier = 0;
-    if (c.kind == "bkg") {
+    if (c.kind == "low") {
+      // de-excitation routine called directly (cascade-level differential): no primary leptons, no genbbsub
+      ev.set_time(0.0);
+      REF_LOW.at(c.refname).fn(r, ev, c.level);
+    } else if (c.kind == "bkg") {
       bxdecay0::bbpars pars;
       bxdecay0::genbbsub(r, ev, bxdecay0::GENBBSUB_I2BBS_BACKGROUND, c.name, -1, -1, bxdecay0::GENBBSUB_ISTART_GENERATE, ier, pars);
     } else {
@@ -221,13 +236,23 @@ static void port_event(const Config & c, DbdState * st, TapeRandom & r, Sides & 
   catch (std::exception & e) { s.p_exc = true; s.exc = e.what(); }
   s.npos = r.pos; s.pe = flatten(ev);
 }
+static void port_prelude(const Config & c)
+{
+  static std::map<std::string, std::vector<double>> dicts;
+  auto it = dicts.find(c.pre_name);
+  if (it == dicts.end()) { Config a; a.kind = "bkg"; a.name = c.pre_name; a.refname = c.pre_name.substr(0, c.pre_name.find('+')); it = dicts.emplace(c.pre_name, dict_for(a)).first; }
+  Tape pt; pt.seed = c.pre_seed; pt.prof = profile_for(splitmix64(c.pre_seed)); pt.dict = &it->second;
+  TapeRandom pr(pt, 0, DEV_LIMIT); bxdecay0::event pe; int ier = 0; bxdecay0::bbpars pars;
+  try { bxdecay0::genbbsub(pr, pe, bxdecay0::GENBBSUB_I2BBS_BACKGROUND, c.pre_name, -1, -1, bxdecay0::GENBBSUB_ISTART_GENERATE, ier, pars); } catch (std::exception &) {}
+}
 static void ref_event(ref::Lib & lib, const Config & c, TapeRandom & r, Sides & s)
 {
   g_ref = &lib;
   R.restore(1);
   ref::g_rnd = &r; R.clear_event(); ref::g_sub50 = 0;
   try {
-    R.call(c.kind == "bkg" ? 2 : 1, c.refname, c.level, c.mode, 1);
+    if (c.kind == "low") R.call_low(c.refname, c.level);
+    else R.call(c.kind == "bkg" ? 2 : 1, c.refname, c.level, c.mode, 1);
   } catch (TapeOverrun &) { s.r_over = true; }
   s.rpos = r.pos; s.re = R.get_event(); s.sub50 = ref::g_sub50;
 }
@@ -412,6 +437,14 @@ static void init_bkg(const Config & c)
   }
 }
 
+// cascade-level differential: the reference needs no initialisation for a direct call of <Nuclide>low (its constants live in block data);
+// slot 1 (restored before every event) is the pristine image
+static void init_low()
+{
+  for (ref::Lib * lib : {&ref::strict(), &ref::harmonised()}) { g_ref = lib; R.restore(0); R.set_params(0, 4.3); R.snapshot(1); }
+  g_ref = &ref::strict();
+}
+
 static void one_event_case(Ctx & cx, const Config & c, DbdState * st, const std::vector<double> & dict, uint64_t tseed, const Tape * itape, const std::string & wclass)
 {
   Tape tape; tape.seed = tseed; tape.prof = profile_for(splitmix64(tseed)); tape.dict = &dict;
@@ -447,9 +480,10 @@ static int run_c01(Ctx & cx, const Args & a)
     std::set<std::string> paths;
     for (long long k = shard; k < cases; k += nsh) {
       uint64_t tseed = mix(mix(seed, 0xC01), mix(ci, k));
-      size_t before = cx.rep.nontrivial.size();
-      one_event_case(cx, c, nullptr, dict, tseed, nullptr, "");
-      (void)before;
+      // every second case is preceded, on the port side, by one event of another nuclide (chosen by hash among all of them)
+      Config cc = c;
+      if (k & 1) { uint64_t h = splitmix64(tseed ^ 0x9e1); cc.pre_name = cfgs[h % cfgs.size()].name; cc.pre_seed = splitmix64(h); cx.rep.count("cases_with_prelude_of_another_nuclide"); }
+      one_event_case(cx, cc, nullptr, dict, tseed, nullptr, "");
     }
     cx.rep.label("nuclide:" + c.name);
   }
@@ -477,7 +511,8 @@ static std::vector<DbdPoint> c02_points_quick()
   return v;
 }
 
-static void run_dbd_config(Ctx & cx, const Config & c, uint64_t seed, int nev, const std::string & wclass)
+// returns true iff the reference accepted the configuration (events were compared)
+static bool run_dbd_config(Ctx & cx, const Config & c, uint64_t seed, int nev, const std::string & wclass)
 {
   DbdState st;
   Tape itape; itape.seed = mix(seed, std::hash<std::string>()(c.key())); itape.prof = Profile();
@@ -496,10 +531,10 @@ static void run_dbd_config(Ctx & cx, const Config & c, uint64_t seed, int nev, c
       std::ofstream(path) << js;
       cx.rep.failures.push_back({sig, io.msg, path});
     }
-    if (io.cls == "accept") return;
-    if (io.ier_r != 0) return;
+    if (io.cls == "accept") return false;
+    if (io.ier_r != 0) return false;
   }
-  if (io.ier_r != 0) { cx.rep.label("ref-rejected"); return; }
+  if (io.ier_r != 0) { cx.rep.label("ref-rejected"); return false; }
   cx.rep.label("ref-accepted");
   cx.rep.label("mode:" + std::to_string(c.mode));
   cx.rep.label("window:" + wclass);
@@ -508,6 +543,7 @@ static void run_dbd_config(Ctx & cx, const Config & c, uint64_t seed, int nev, c
     uint64_t tseed = mix(itape.seed, 1000 + k);
     one_event_case(cx, c, &st, dict, tseed, &itape, wclass);
   }
+  return true;
 }
 
 static int run_c02(Ctx & cx, const Args & a)
@@ -515,12 +551,12 @@ static int run_c02(Ctx & cx, const Args & a)
   uint64_t seed = a.i("seed", 1); int shard = a.i("shard", 0), nsh = a.i("nshards", 1);
   int nev = a.i("evts", 200); std::string grid = a.s("grid", "strat");
   auto pts = c02_points_quick();
+  if (a.has("lowonly")) pts.clear(); // diagnostic: cascade-level pass only
   // the shard/stratification decision is a pure function of (seed, point index)
   size_t idx = 0, taken = 0;
   // stratified: every isotope at level 0 with ALL its modes, highest level with a third, 1/11 of the rest - and, so that no
   // daughter-level cascade goes unvisited, for EVERY (isotope, level) the point with the smallest hash
-  std::map<std::pair<std::string, int>, std::pair<uint64_t, size_t>> rep_of;
-  { size_t i = 0; for (auto & p : pts) { uint64_t h = mix(seed ^ 0x5eed, i); auto key = std::make_pair(p.name, p.level); auto it = rep_of.find(key); if (it == rep_of.end() || h < it->second.first) rep_of[key] = {h, i}; i++; } }
+  // (the representative of a (isotope, level) is searched among the ACCEPTED cells: see the pass after the main loop)
   for (auto & p : pts) {
     size_t my = idx++;
     bool take;
@@ -530,7 +566,7 @@ static int run_c02(Ctx & cx, const Args & a)
       int maxl = catalog::dbd_max_level(p.name);
       // every mode of every isotope at the ground-state level (the primary-lepton code differs per mode and per sign of the process),
       // a third of the cells of the highest level, 1/11 of the rest, and the representative of every (isotope, level)
-      take = p.level == 0 || (p.level == maxl && (h % 3) == 0) || (h % 11) == 0 || rep_of[std::make_pair(p.name, p.level)].second == my;
+      take = p.level == 0 || (p.level == maxl && (h % 3) == 0) || (h % 11) == 0;
     }
     if (!take) continue;
     if ((taken++ % nsh) != (size_t)shard) continue;
@@ -557,6 +593,43 @@ static int run_c02(Ctx & cx, const Args & a)
       }
     }
   }
+  // representative pass (stratified grid only): for EVERY (isotope, excited level) the modes are tried in a hash order until the reference
+  // accepts one (many levels admit only a few modes, e.g. 11/12 for the upper levels of the 2EC candidates), and that cell gets 3x the events:
+  // the entry into every daughter-level cascade through genbbsub is compared on both sides whatever the seed
+  if (grid != "full" && !a.has("lowonly")) {
+    std::map<std::pair<std::string, int>, std::vector<int>> groups;
+    for (auto & p : pts) if (p.level > 0) groups[{p.name, p.level}].push_back(p.mode);
+    size_t gi = 0;
+    for (auto & g : groups) {
+      size_t my = gi++;
+      if ((my % nsh) != (size_t)shard) continue;
+      std::vector<int> modes = g.second;
+      std::sort(modes.begin(), modes.end(), [&](int x, int y) { return mix(mix(seed ^ 0x5eed, my), x) < mix(mix(seed ^ 0x5eed, my), y); });
+      for (int m : modes) {
+        Config c; c.kind = "dbd"; c.name = g.first.first; c.refname = c.name; c.level = g.first.second; c.mode = m;
+        if (c.mode == 18) { Rng r(mix(seed, my * 37 + 5)); for (int i = 0; i < 7; i++) c.nme[i] = std::round(r.uniform(-2, 2) * 100) / 100; }
+        if (run_dbd_config(cx, c, mix(seed, 0x4e9), 3 * nev, "none")) { cx.rep.label("level-representative"); break; }
+      }
+    }
+  }
+  // cascade-level pass: every de-excitation routine <Nuclide>low is called DIRECTLY on both sides for every entry level the reference
+  // tabulates, without the primary leptons (which cost ~95% of a double-beta event and never influence the cascade): every branch of every
+  // daughter level scheme gets thousands of steered tapes in the quick tier
+  {
+    long long nlow = a.i("lowevts", 4000);
+    size_t k = 0;
+    init_low();
+    for (auto & kv : REF_LOW) {
+      if (!kv.second.fn) { cx.rep.label("low-routine-not-in-port:" + kv.first); continue; }
+      for (int lev : kv.second.levels) {
+        if ((k++ % nsh) != (size_t)shard) continue;
+        Config c; c.kind = "low"; c.name = kv.first; c.refname = kv.first; c.level = lev; c.mode = 0;
+        std::vector<double> dict = dict_for(c);
+        cx.rep.label("low:" + kv.first);
+        for (long long e = 0; e < nlow; e++) one_event_case(cx, c, nullptr, dict, mix(mix(seed, 0x10e), mix(k, e)), nullptr, "cascade-only");
+      }
+    }
+  }
   return 0;
 }
 
@@ -571,6 +644,7 @@ static int run_replay(Ctx & cx, const std::string & file)
   tape.v = jtape_read(j.at("tape"));
   DbdState st; Outcome o;
   if (c.kind == "bkg") { init_bkg(c); o = run_event(c, nullptr, tape); }
+  else if (c.kind == "low") { init_low(); o = run_event(c, nullptr, tape); }
   else {
     Tape itape; itape.seed = strtoull(j.s("init_tape_seed", "0").c_str(), nullptr, 10);
     if (j.has("init_tape")) itape.v = jtape_read(j.at("init_tape"));
